@@ -516,9 +516,9 @@ func serializeRuns(w int, runs []frun) (stream []byte, vals []uint32, lastBP int
 }
 
 // foreignLevelsWidth0BitPacked: bit-packed runs at bit width 0 in the levels
-// generator.  Off while the amd64 kernel decodeBytesBitpackBMI2 returns the
-// bytes around its (empty) input for them (reported; portable code: zeros).
-var foreignLevelsWidth0BitPacked = false
+// generator (before 3bd17ac the amd64 kernel decodeBytesBitpackBMI2 returned the
+// bytes around its (empty) input for them; portable code: zeros).
+var foreignLevelsWidth0BitPacked = true
 
 func genRuns(rng *rand.Rand, w int, rleOnly bool) []frun {
 	n := 1 + rng.Intn(6)
